@@ -24,9 +24,9 @@ def all_roots(ck, names=("roots_general.fen", "roots_special.fen", "roots_lowmat
     return out
 
 
-def make_pool(ck, exe, games, sparse, seed_off=0):
+def make_pool(ck, exe, games, sparse, seed_off=0, attack=0):
     out = os.path.join(ck.work, "pool.txt")
-    core.run_vh(exe, ["pool", "--roots", all_roots(ck), "--games", games, "--sparse", sparse, "--out", out, "--seed", core.seed() + seed_off])
+    core.run_vh(exe, ["pool", "--roots", all_roots(ck), "--games", games, "--sparse", sparse, "--attack", attack, "--out", out, "--seed", core.seed() + seed_off])
     pool = []
     for l in open(out):
         f = l.rstrip("\n").split("|")
@@ -182,6 +182,12 @@ def c05(tier):
         p = rnd.choice(quiet)
         sm = rnd.sample(p["moves"], rnd.randint(1, min(3, len(p["moves"]))))
         plan.append(plan_line(p["fen"], "depth %d" % rnd.randint(1, 3), sm=sm, tt=rnd.choice(["warm", "poison"]), tag="sm"))
+    # searches from positions WITH a game history (repetition cuts inside the tree, fifty-move clocks): deeper, pv-heavy runs
+    hp = os.path.join(ck.work, "histpool.txt")
+    core.run_vh(exe, ["pool-hist", "--roots", all_roots(ck), "--n", 600 if full else 60, "--maxply", 24, "--out", hp, "--seed", core.seed() + 3])
+    for l in open(hp):
+        f = l.rstrip("\n").split("|")
+        plan.append(plan_line(f[0], "depth %d" % rnd.choice([3, 4, 4, 5] if full else [3, 4, 4]), tt=rnd.choice(["fresh", "warm"]), tag="hist", moves=f[1].split()))
     viols, cnt, info, sh = run_plan(ck, exe, plan, "r")
     for k in ("go", "best", "info", "stop_runs", "poison_runs", "early_stop_runs"):
         if cnt.get(k, 0) == 0:
@@ -238,6 +244,12 @@ def c06(tier):
         p = rnd.choice(busy)
         plan.append(plan_line(p["fen"], rnd.choice(["infinite", "infinite", "depth 30", "wtime 600000 btime 600000"]), tt="fresh",
                               stop_id=rnd.choice(["node", "node", "qnode"]), stop_n=k, tag="stop"))
+    # capture-saturated positions: a stop that lands inside a huge quiescence tree must still be honoured at once
+    tact = [l.strip() for l in open(os.path.join(DATA, "roots_tactical.fen")) if l.strip() and not l.startswith("#")]
+    for fen in tact:
+        for k in ([3, 40, 700, 5000] if full else [5, 300]):
+            plan.append(plan_line(fen, "infinite", tt="fresh", stop_id=rnd.choice(["qnode", "node"]), stop_n=k, tag="stop"))
+        plan.append(plan_line(fen, "infinite", tt="fresh", stop_id="qnode", stop_n=rnd.randint(1000, 4000), tag="stop"))
     viols, cnt, info, sh = run_plan(ck, exe, plan, "a")
     take(ck, "C06", viols, others)
     take_crashes(ck, "C06", info, others)
@@ -297,7 +309,7 @@ def c08(tier):
     rnd = random.Random(core.seed())
     ck.cov["design"] = design(ck)
     ck.cov["design_as_written"] = design_as_written(ck, ["pruned"])
-    pool = make_pool(ck, exe, 1500 if full else 150, 20000 if full else 3000)
+    pool = make_pool(ck, exe, 3000 if full else 300, 20000 if full else 3000, attack=60000 if full else 3000)
     mate1 = [p for p in pool if p["mate1"]]
     plan = []
     # mates in one: every depth, fresh and warm tables, repeated root
@@ -307,8 +319,9 @@ def c08(tier):
     # announcements: shallow searches over many sparse and game positions (where the all-moves-pruned value shows), real session histories:
     # the same root repeated, then its table reused
     n = 150000 if full else 9000
+    rnd.shuffle(pool)
     for i in range(n):
-        p = rnd.choice(pool)
+        p = pool[i % len(pool)]          # every pool position before any repeats
         d = rnd.choice([1, 2, 2, 3, 3] + ([4] if full else []))
         plan.append(plan_line(p["fen"], "depth %d" % d, tt="fresh" if i % 25 == 0 else "warm", tag="ann"))
         if i % 10 == 0:
@@ -317,6 +330,9 @@ def c08(tier):
     if cnt.get("mate_claims", 0) == 0 or cnt.get("mate1_roots", 0) == 0:
         raise InfraError("vacuous C08 run: %s" % cnt)
     others = {}
+    dis = [v for v in viols if v.get("kind") == "solver_disagrees_with_specification"]
+    if dis:
+        raise InfraError("the harness mate solver disagrees with MateOracle.tla: %s" % json.dumps(dis[0])[:400])
     take(ck, "C08", viols, others)
     take_crashes(ck, "C08", info, others, covered=False)
     ck.cov["evaluations"] = info["runs"]
@@ -324,7 +340,9 @@ def c08(tier):
     ck.cov["rule"] = ("%d real searches (depth 1..%d, fresh and warm tables as real sessions leave them) over a pool of game, root and sparse-material positions; every run whose "
                       "output contains a mate score, and every run on a root where the engine's generator sees a mate in one, is logged and decided by the monitor with the mate "
                       "oracle of MateOracle.tla (exhaustive forced-mate definition over Legal/Apply of the rules spec, first with the claimed distance in moves = ceil(plies/2) and the "
-                      "engine's pv move as a hint, then exhaustively up to %d moves); claims beyond the bound are counted as undecided (%d this run), never as violations. "
+                      "engine's pv move as a hint, then exhaustively up to %d moves); claims beyond that bound are decided by the harness's exhaustive solver (same definition, over the "
+                      "engine's move generator, 4M-node budget; cross-checked against the specification's verdict on every claim within the bound: see solver_agrees) or "
+                      "counted as undecided (%d this run), never as violations. "
                       "distinct_nontrivial = mate announcements decided + roots with a mate in one") % (info["runs"], 4 if full else 3, 3 if full else 2, cnt.get("mate_undecided", 0))
     ck.cov["monitor_counters"] = cnt
     ck.cov["runs_logged_for_the_oracle"] = info["logged"]
@@ -349,6 +367,13 @@ def c09(tier):
     for i in range(1500 if full else 90):
         p = rnd.choice(pool)
         plan.append(plan_line(p["fen"], "depth %d" % rnd.choice([1, 2, 3, 4] + ([5, 6] if full else [])), tt=rnd.choice(["fresh", "warm"]), tag="depth"))
+    # a depth limit given together with other limits (clock, movetime, nodes) still caps the iterations
+    for i in range(200 if full else 24):
+        p = rnd.choice(pool)
+        d = rnd.randint(1, 3)
+        extra = rnd.choice(["wtime 60000 btime 60000", "wtime 300000 btime 300000 winc 2000 binc 2000", "movetime 3000", "nodes 5000000",
+                            "wtime 90000 btime 90000 movestogo 20", "movetime 3000 wtime 60000 btime 60000"])
+        plan.append(plan_line(p["fen"], ("depth %d " % d) + extra if rnd.random() < 0.5 else extra + (" depth %d" % d), tt=rnd.choice(["fresh", "warm"]), tag="depth+"))
     # depth values around and beyond the internal maximum on trees that stay tiny
     tiny = ["8/8/4k3/8/8/8/8/4K3 w - - 0 1", "8/8/4k3/8/8/8/8/4K3 b - - 0 1", "7k/5K2/8/6P1/8/8/8/8 b - - 0 1", "k7/P7/1K6/8/8/8/8/8 b - - 0 1",
             "7k/8/6K1/8/8/8/8/8 w - - 0 1", "6k1/5ppp/8/8/8/8/8/1RK5 w - - 0 1", "k7/8/1K6/8/8/8/8/7R w - - 0 1", "8/8/8/8/8/5k2/7q/7K w - - 0 1",
